@@ -709,6 +709,20 @@ def check(prop, tier, seed):
     return 1
 
 
+def cleanup_stale_scratch(max_age_s=3 * 3600):
+    """scratch copies are removed by the code that makes them; a killed run can leave one behind: remove ours once they are old"""
+    import shutil
+    root = runner.SCRATCH_ROOT
+    try:
+        for n in os.listdir(root):
+            if n.startswith(('dwverif-', 'dwprobe-', 'dwdiag-', 'dwsolver-', 'dwnostd-', 'dwcrateopt-', 'dwmut-')):
+                p = os.path.join(root, n)
+                if os.path.isdir(p) and time.time() - os.path.getmtime(p) > max_age_s:
+                    shutil.rmtree(p, ignore_errors=True)
+    except OSError:
+        pass
+
+
 def main(argv):
     ap = argparse.ArgumentParser(prog='dwv')
     sp = ap.add_subparsers(dest='cmd', required=True)
@@ -719,6 +733,7 @@ def main(argv):
     r.add_argument('path')
     a = ap.parse_args(argv)
     seed = int(os.environ.get('VERIF_SEED', '1') or 1)
+    cleanup_stale_scratch()
     try:
         if a.cmd == 'check':
             if a.prop not in PROPS:
